@@ -11,8 +11,8 @@ import (
 
 // HarnessC20TransformPublisher: stacks of 0..3 transform publisher decorators are transparent.
 func HarnessC20TransformPublisher() {
-	depth := vrt.Int("depth", 0, 3)
-	n := vrt.Int("batch", 0, 2)
+	depth := vrt.Int("depth", 0, vrt.Bound("maxdepth", 3))
+	n := vrt.Int("batch", 0, vrt.Bound("maxbatch", 2))
 	inner := &scriptedPublisher{outcome: func(int) int { return vrt.Int("inner.outcome", 0, 1) }}
 	var pub Publisher = inner
 	var seen []int
